@@ -4,7 +4,7 @@ from __future__ import annotations
 import ast
 
 from .pymodel import Program
-from .cymodel import CyProgram, X, pp, walk
+from .cymodel import CyProgram, X, pp, walk, names_in
 from .kernels import report_sites
 from .report import Run, AnalysisError
 
@@ -59,12 +59,43 @@ def g1(run: Run, cy: CyProgram):
                         f"same value is not written to [{idx0[1]},{idx0[0]}] next to it: "
                         f"the distance matrix is not exactly symmetric")
                 continue
-            key = tuple(sorted(idx0))
+            key = (tuple(sorted(idx0)), tuple(id(l) for l in chains.get(id(st), ())))
             if key in seen:
                 continue
             seen.add(key)
             stores.append((st, chains.get(id(st), ()), idx0))
+        allst = _loops(f.body)
         for st, chain, idx0 in stores:
+            # a scalar accumulated in a loop nested inside the pair loops and
+            # consumed by this store must start afresh for every pair
+            vnames = names_in(st.a[1]) if st.k == "assign" else set()
+            for nm in sorted(vnames):
+                def self_ref(s_):
+                    return s_.k == "aug" and s_.a[1].k == "name" and s_.a[1].a[0] == nm \
+                        or s_.k == "assign" and any(
+                            t.k == "name" and t.a[0] == nm for t in s_.a[0]) and \
+                        nm in names_in(s_.a[1])
+                accum = [(s_, c_) for s_, c_ in allst if self_ref(s_)
+                         and len(c_) > len(chain) and c_[:len(chain)] == chain]
+                if not accum:
+                    continue
+                resets = [c_ for s_, c_ in allst if s_.k == "assign" and any(
+                    t.k == "name" and t.a[0] == nm for t in s_.a[0])
+                    and nm not in names_in(s_.a[1])]
+                # only resets that can precede this store: on its loop chain
+                resets = [c_ for c_ in resets if chain[:len(c_)] == c_]
+                ok = any(len(c_) == len(chain) for c_ in resets)
+                run.oblige("G1", f"{kname}:fresh-accumulator", ok, sample={
+                    "accumulator": nm, "reset_depths": sorted(len(c_) for c_ in resets),
+                    "pair_loop_depth": len(chain)})
+                if not ok and resets:
+                    run.add("G1", f"{kname}/accumulator-reset",
+                            f"{f.module.relpath}:{accum[0][0].line}",
+                            f"{kname}: the value stored for a pair accumulates in a loop "
+                            f"over the remaining axis, but the accumulator is reset at loop "
+                            f"depth {sorted(len(c_) for c_ in resets)} instead of once per "
+                            f"pair (depth {len(chain)}): later pairs of a row include the "
+                            f"sums of the earlier ones")
             idx = [idx0]
             # loop domain: the two index variables enumerate the full triangle
             a, b = idx[0]
@@ -296,6 +327,24 @@ def g3(run: Run, prog: Program):
         "sin_lat" not in src
     expect("GeoNetwork.set_node_weight_type", "cos-lat", ok, m.where,
            "geographic node weights must be (powers of) the cosine of latitude")
+    # area-weighted measures take each node's area from its own latitude: the
+    # configurable n.s.i. node weights (None / surface / irrigation / set by the
+    # user) are a different quantity and must not be read instead
+    from .pymodel import iter_events
+    k = 0
+    for mname, m in sorted(prog.all_methods(gn).items()):
+        if "area_weighted_connectivity" not in mname or m.cls is not gn:
+            continue
+        k += 1
+        t = prog.tree(m, gn, {})
+        reads = {e.cell for e in iter_events(t) if e.kind == "read"}
+        bad = sorted(reads & {"node_weights", "_node_weights", "total_node_weight",
+                              "mean_node_weight"})
+        expect(f"GeoNetwork.{mname}", "area-from-latitude", not bad, m.where,
+               f"GeoNetwork.{mname} reads {bad}: the area of a node is the cosine of "
+               f"its own latitude (grid.cos_lat()), whereas the node weights follow "
+               f"node_weight_type (None, 'irrigation') or what the user assigned")
+    run.floor("G3 area-weighted measures", k, 3)
     # Data.set_window pairs lat/lon bounds with the lat/lon sequences
     dt = prog.classes.get("Data")
     m = dt.methods["set_window"]
